@@ -80,6 +80,7 @@ def sparc_ldf_ldc(obj, rd, a, op3, rs1, i, unused, rs2, simm13):
     dst = env.f[rd] if a == 0 else env.c[rd]
     if op3 & 0xF == 0b0001:
         dst = env.fsr if a == 0 else env.csr
+    obj.rd = rd
     obj.operands = [src, dst]
     obj.type = type_data_processing
 
@@ -139,6 +140,7 @@ def sparc_stf_stc(obj, rd, a, op3, rs1, i, unused, rs2, simm13):
         src = env.fsr if a == 0 else env.csr
     elif op3 & 0xF == 0b0110:
         src = env.fq if a == 0 else env.cq
+    obj.rd = rd
     obj.operands = [src, dst]
     obj.type = type_data_processing
 
